@@ -1,0 +1,15 @@
+//go:build verif
+
+package socks5
+
+// Exports for the external verification harness (property C12). Add-only; compiled only with -tags verif.
+
+// VerifC12WellKnownIPv4LocalDomainNames returns a copy of the names treated as 127.0.0.1.
+func VerifC12WellKnownIPv4LocalDomainNames() []string {
+	return append([]string(nil), wellKnownIPv4LocalDomainNames...)
+}
+
+// VerifC12WellKnownIPv6LocalDomainNames returns a copy of the names treated as ::1.
+func VerifC12WellKnownIPv6LocalDomainNames() []string {
+	return append([]string(nil), wellKnownIPv6LocalDomainNames...)
+}
